@@ -3,7 +3,7 @@
 E1, everything executed in child processes so that a crash is an observation:
  1. all byte strings of length <= 2 over all 256 bytes; all strings of <= L elements of a 27-element byte alphabet chosen one
     per lexer branch (incl. the bytes of U+2028, Latin-1 letters, invalid UTF-8, NUL) — parsed, and evaluated when accepted;
- 2. all strings of <= K tokens over the 63-token alphabet — parsed, and evaluated when accepted;
+ 2. all strings of <= K tokens over the 66-token alphabet — parsed, and evaluated when accepted;
  3. nesting: 24 nestable constructs x every depth 1..64;
  4. hostile programs: every pair (builtin that iterates or re-enters) x (callback that mutates what is being iterated);
  5. reuse: every ordered pair from a pool of inputs (one per outcome class) evaluated on ONE context.
@@ -12,7 +12,7 @@ Abort (signal) or Hang.
 """
 import json, os, subprocess
 from .. import core
-from .c19 import run_shards, merge, C02_KINDS
+from .c19 import run_shards, merge, C02_KINDS, NTOK
 
 PACKAGES = ("vrun", "vtok")
 
@@ -116,7 +116,7 @@ def run(chk):
     L, K = (4, 4) if tier == "thorough" else (3, 3)
     cmds = [["bytes2", str(i), str(i + 16)] for i in range(0, 256, 16)]
     cmds += [["bytes", str(L), str(i), str(i + 1), "eval"] for i in range(27)]
-    cmds += [["tokens", str(K), str(i), str(i + 1), "eval"] for i in range(63)]
+    cmds += [["tokens", str(K), str(i), str(i + 1), "eval"] for i in range(NTOK)]
     tot, outcomes, fails = merge(run_shards(cmds))
     chk.part("texts", byte_L=L, token_K=K, **tot)
     bad = [(f["kind"], f["src"], f["detail"], {"src": f["src"], "bytes": f.get("bytes")}) for f in fails if f["kind"] in C02_KINDS or f["kind"] == "process-died"]
@@ -163,7 +163,7 @@ def run(chk):
     outcomes.update({"prog:" + k: v for k, v in classes.items()})
     chk.cov["distinct_outcomes"] = len(outcomes)
     chk.cov["outcome_classes"] = outcomes
-    chk.cov["rule"] = ("E1: all byte strings <=2 over 256 bytes + all strings <= %d over the 27-element byte alphabet + all strings <= %d over the 63-token alphabet (parsed; "
+    chk.cov["rule"] = ("E1: all byte strings <=2 over 256 bytes + all strings <= %d over the 27-element byte alphabet + all strings <= %d over the 66-token alphabet (parsed; "
                        "evaluated when accepted) + 27 nestable constructs x depths 1..64 + %d iterator x %d mutation hostile programs + all %d ordered pairs of the reuse pool "
                        "on one context; states = inputs, transitions = parses + evaluations; every outcome must be a value, a JavaScript exception or a RuntimeLimit" % (L, K, len(ITERATORS), len(MUTATIONS), len(pairs)))
     chk.sample({"nest": nests[200][2][:160]})
